@@ -184,10 +184,16 @@ def _describe(t, reached):
         what = "call returned a value different from the specification's result (or returned where ValueError is required)"
     elif a in ("Raise", "SubRaise"):
         what = f"call raised {e.get('exc')} where the specification does not allow it (or another error class than ValueError)"
+    elif a == "Perms":
+        what = ("pypdf AlgV5.verify_perms answered differently from what the specification's ECB decryption of the "
+                "/Perms block implies")
     elif a == "Sub":
         what = "stream wrapper handed other arguments to the CBC layer than key / IV / padded message"
     else:
         what = f"event {a} not accepted"
+    if t["hdr"].get("binding"):
+        what = (f"{t['hdr']['binding']} (installed by patch_pypdf_fallback_aes) does not behave as the function "
+                f"its name promises ({t['hdr']['fn']}): " + what)
     return what, {"call": ctxd, "event_index": reached, "event": obs}
 
 
@@ -276,7 +282,9 @@ def run(ctx):
            constants={"traces": len(traces), "events": n_events, "cipher_blocks": stats["blocks"],
                       "calls": stats["calls"], "rejections_expected": stats["bad_calls"],
                       "wrapper_lengths": stats["wrapper_lengths"],
-                      "hostile_plaintexts": stats.get("hostile_plaintexts", 0), "key_sizes": [16, 24, 32]})
+                      "hostile_plaintexts": stats.get("hostile_plaintexts", 0), "key_sizes": [16, 24, 32],
+                      "pypdf_bindings_driven": stats.get("bindings", []),
+                      "pypdf_bindings_changed_but_not_modelled": stats.get("bindings_not_modelled", [])})
     ev.assume("FIPS-197 / SP 800-38A known answers and the affine map were transcribed by hand into AESVectors.tla / "
               "AES.tla (cross-checked: TLC derives the published ciphertexts from the first-principles model)",
               "Bitwise!^^ of the TLA+ CommunityModules is trusted as XOR (checked against bitwise addition mod 2 on all byte pairs)",
@@ -419,6 +427,7 @@ class Recorder:
                            else {"a": "BadRet", "type": type(out).__name__})
             return out
         f.__name__ = name
+        f._c20_orig = orig
         return f
 
     # ---- recording one top-level call as one trace
@@ -443,6 +452,21 @@ class Recorder:
             self.log.append({"a": "Raise", "exc": type(e).__name__})
             return
         self.log.append({"a": "Ret", "out": []})
+
+    def call_binding(self, func, fn, has_iv, key, iv, data):
+        """Call a function object found under a pypdf module attribute; the trace is labelled with the
+        function the attribute's NAME promises (fn), whatever object is bound there."""
+        self.begin()
+        self.log.append({"a": "Call", "fn": fn, "key": list(key), "iv": list(iv) if has_iv else [], "data": list(data)})
+        args = (key, iv, data) if has_iv else (key, data)
+        try:
+            out = func(*args)
+        except Exception as e:
+            self.log.append({"a": "Raise", "exc": type(e).__name__})
+            return None
+        o = _bl(out)
+        self.log.append({"a": "Ret", "out": o} if o is not None else {"a": "BadRet", "type": type(out).__name__})
+        return out if o is not None else None
 
     def call_wrap(self, cls, fn, key, data):
         self.begin()
@@ -570,6 +594,17 @@ def _worker(job):
 
     # ---- patch pypdf, then wrap
     try:
+        import pypdf._crypt_providers as _prov
+        import pypdf._crypt_providers._fallback as _fbm
+        import pypdf._encryption as _encm
+    except Exception as e:
+        print(f"cannot import pypdf crypto modules: {e!r}", file=sys.stderr)
+        return 4
+    pymods = {"_crypt_providers": _prov, "_crypt_providers._fallback": _fbm, "_encryption": _encm}
+    before = {(mn, n): getattr(m, n) for mn, m in pymods.items() for n in dir(m) if not n.startswith("__")}
+    cls_before = {mn: {k: getattr(m, "CryptAES").__dict__.get(k) for k in ("__init__", "encrypt", "decrypt")}
+                  for mn, m in pymods.items() if hasattr(m, "CryptAES")}
+    try:
         patched = M.patch_pypdf_fallback_aes()
     except Exception as e:
         print(f"patch_pypdf_fallback_aes failed: {e!r}", file=sys.stderr)
@@ -579,6 +614,22 @@ def _worker(job):
         return 4
     import pypdf._crypt_providers._fallback as fb
     CryptAES = fb.CryptAES          # the class whose encrypt / decrypt the patch replaced
+    # every binding the patch installed: module attributes that changed + CryptAES classes whose methods changed
+    BIND_FN = {"aes_ecb_encrypt": ("ecb_enc", False), "aes_ecb_decrypt": ("ecb_dec", False),
+               "aes_cbc_encrypt": ("cbc_enc", True), "aes_cbc_decrypt": ("cbc_dec", True)}
+    fn_bindings, cls_bindings, other_bindings = [], [], []
+    for mn in sorted(pymods):
+        m = pymods[mn]
+        for n in sorted(x for x in dir(m) if not x.startswith("__")):
+            if n == "CryptAES":
+                continue
+            if getattr(m, n) is not before.get((mn, n), None):
+                (fn_bindings if n in BIND_FN else other_bindings).append((mn, n))
+        if hasattr(m, "CryptAES"):
+            c = m.CryptAES
+            now = {k: c.__dict__.get(k) for k in ("__init__", "encrypt", "decrypt")}
+            if c is not before.get((mn, "CryptAES")) or now != cls_before.get(mn) or c is CryptAES:
+                cls_bindings.append((mn, "CryptAES"))
     rec.install()
 
     # ---- key pool: related keys (shared prefixes / suffixes, same bytes at other lengths), reused keys
@@ -738,6 +789,128 @@ def _worker(job):
         wrap("wrap_dec", rb(kn), rb(48), "wrap-badkey")
         wrap("wrap_dec", rb(kn), rb(16), "wrap-badkey-empty")
         stats["bad_calls"] += 2
+    # ---- every binding patch_pypdf_fallback_aes() installed into pypdf: driven through the vectors of the
+    # function its NAME promises and validated by the same trace specification (a name *decrypt* must decrypt)
+    def unwrapped(obj):          # never one of this recorder's own mode wrappers (they would log Sub events)
+        return getattr(obj, "_c20_orig", obj)
+
+    for mn, n in fn_bindings:
+        fn, has_iv = BIND_FN[n]
+        func = unwrapped(getattr(pymods[mn], n))
+        good = [(sz, nb) for sz in sizes for nb in ((2, 3) if thorough else (2,))]
+        if not thorough:
+            rng.shuffle(good)
+            good = good[:2] + [(32, 1)]
+        for sz, nb in good + [(rng.choice(sizes), 0)]:
+            key = pick_key(sz)
+            b0 = rec.blocks
+            rec.call_binding(func, fn, has_iv, key, rb(16), rb(16 * nb))
+            stats["calls"] += 1
+            add(f"bind:{mn}.{n}:{len(traces)}:{fn}:k{sz}:n{16 * nb}", "call", rec.log, fn=fn, keylen=sz,
+                blocks=rec.blocks - b0, len=16 * nb, binding=f"pypdf.{mn}.{n}",
+                where=f"patch_pypdf_fallback_aes: pypdf.{mn}.{n}")
+        bad = [(rb(17), rb(16), rb(16)), (good_key[16], rb(16), rb(15))] + ([(good_key[24], rb(15), rb(16))] if has_iv else [])
+        if thorough:
+            bad += [(rb(0), rb(16), rb(16)), (rb(48), rb(16), rb(32)), (good_key[32], rb(16), rb(33))]
+        for key, iv, data in bad:
+            rec.call_binding(func, fn, has_iv, key, iv, data)
+            stats["calls"] += 1
+            stats["bad_calls"] += 1
+            add(f"bind-bad:{mn}.{n}:{len(traces)}:{fn}:k{len(key)}:n{len(data)}", "call", rec.log, fn=fn,
+                keylen=len(key), blocks=0, len=len(data), binding=f"pypdf.{mn}.{n}",
+                where=f"patch_pypdf_fallback_aes: pypdf.{mn}.{n}")
+    for mn, n in cls_bindings:
+        cls = getattr(pymods[mn], n)
+        msgs = [b"", rb(12) + b"\x03", bytes([16]) * 16, rb(31)] + ([rb(33), rb(47) + b"\x01"] if thorough else [])
+        for i, m in enumerate(msgs):
+            key = pick_key(sizes[(i + seed) % 3])
+            b0 = rec.blocks
+            stream = rec.call_wrap(cls, "wrap_enc", key, m)
+            add(f"bind:{mn}.{n}:{len(traces)}:wrap_enc:k{len(key)}:n{len(m)}", "call", rec.log, fn="wrap_enc",
+                keylen=len(key), blocks=rec.blocks - b0, len=len(m), binding=f"pypdf.{mn}.{n}",
+                where=f"patch_pypdf_fallback_aes: pypdf.{mn}.{n}.encrypt")
+            stats["calls"] += 1
+            if stream is not None:
+                b0 = rec.blocks
+                rec.call_wrap(cls, "wrap_dec", key, stream)
+                add(f"bind:{mn}.{n}:{len(traces)}:wrap_dec:k{len(key)}:n{len(stream)}", "call", rec.log, fn="wrap_dec",
+                    keylen=len(key), blocks=rec.blocks - b0, len=len(stream), binding=f"pypdf.{mn}.{n}",
+                    where=f"patch_pypdf_fallback_aes: pypdf.{mn}.{n}.decrypt")
+                stats["calls"] += 1
+        for data, key in ((b"", pick_key()), (rb(16), pick_key()), (rb(48), rb(5))):
+            rec.call_wrap(cls, "wrap_dec", key, data)
+            add(f"bind:{mn}.{n}:{len(traces)}:wrap_dec:k{len(key)}:n{len(data)}", "call", rec.log, fn="wrap_dec",
+                keylen=len(key), blocks=0, len=len(data), binding=f"pypdf.{mn}.{n}",
+                where=f"patch_pypdf_fallback_aes: pypdf.{mn}.{n}.decrypt")
+            stats["calls"] += 1
+    stats["bindings"] = [f"pypdf.{mn}.{n}" for mn, n in fn_bindings + cls_bindings]
+    stats["bindings_not_modelled"] = [f"pypdf.{mn}.{n}" for mn, n in other_bindings]
+
+    # ---- end to end: pypdf's AlgV5 /Perms computation and check (AES-256 documents), which reach the built-in AES
+    # through the names bound in pypdf._encryption.  A logging shim on those two names records what pypdf asked
+    # for; the label is the NAME pypdf calls.  TLC decides what verify_perms must answer (event Perms).
+    AlgV5 = getattr(_encm, "AlgV5", None)
+    if AlgV5 is not None and hasattr(AlgV5, "verify_perms"):
+        import struct
+
+        def shim(name):
+            fn, has_iv = BIND_FN[name]
+            bound = unwrapped(getattr(_encm, name))
+
+            def f(key, data):
+                rec.log.append({"a": "Call", "fn": fn, "key": _bl(key) or [], "iv": [], "data": _bl(data) or []})
+                try:
+                    out = bound(key, data)
+                except Exception as e:
+                    rec.log.append({"a": "Raise", "exc": type(e).__name__})
+                    raise
+                o = _bl(out)
+                rec.log.append({"a": "Ret", "out": o} if o is not None else {"a": "BadRet", "type": type(out).__name__})
+                return out
+            return f
+
+        saved = {n: getattr(_encm, n) for n in ("aes_ecb_encrypt", "aes_ecb_decrypt") if hasattr(_encm, n)}
+        try:
+            for n in saved:
+                setattr(_encm, n, shim(n))
+            vectors = [(p_ & 0xFFFFFFFF, m_) for p_, m_ in
+                       [(-1084, True), (-4, False), (-3904, True)] + ([(-44, True), (0, False)] if thorough else [])]
+            for vi, (pflags, meta) in enumerate(vectors):
+                fkey = pick_key(32)
+                perms = None
+                if hasattr(AlgV5, "compute_Perms_value"):
+                    rec.begin()
+                    try:
+                        perms = AlgV5.compute_Perms_value(fkey, pflags, meta)
+                    except Exception:
+                        perms = None
+                    add(f"e2e:compute_Perms_value:{len(traces)}", "call", rec.log, fn="ecb_enc", keylen=32, blocks=1,
+                        len=16, binding="pypdf._encryption.aes_ecb_encrypt", where="pypdf AlgV5.compute_Perms_value -> aes_ecb_encrypt")
+                    stats["calls"] += 1
+                if perms is None:
+                    rec.begin()
+                    try:
+                        perms = rec.orig["aes_ecb_encrypt"](fkey, struct.pack("<I", pflags) + b"\xff" * 4
+                                                            + (b"T" if meta else b"F") + b"adb" + rb(4))
+                    except Exception:
+                        continue
+                for variant, pblock, pf in (("correct", perms, pflags), ("other-flags", perms, pflags ^ 8),
+                                            ("garbage", rb(16), pflags))[: (3 if vi == 0 or thorough else 1)]:
+                    rec.begin()
+                    p1 = struct.pack("<I", pf) + b"\xff\xff\xff\xff" + (b"T" if meta else b"F") + b"adb"
+                    try:
+                        ok = AlgV5.verify_perms(fkey, pblock, pf, meta)
+                        rec.log.append({"a": "Perms", "p1": list(p1), "ok": bool(ok)})
+                    except Exception as e:
+                        if not rec.log or rec.log[-1]["a"] != "Raise":
+                            rec.log.append({"a": "Raise", "exc": type(e).__name__})
+                    add(f"e2e:verify_perms:{variant}:{len(traces)}", "call", rec.log, fn="ecb_dec", keylen=32, blocks=1,
+                        len=16, binding="pypdf._encryption.aes_ecb_decrypt", where="pypdf AlgV5.verify_perms -> aes_ecb_decrypt")
+                    stats["calls"] += 1
+        finally:
+            for n, o in saved.items():
+                setattr(_encm, n, o)
+
     # ---- IV freshness: repeated encrypt calls, same key and message
     ivs = []
     key = pick_key(16)
